@@ -81,10 +81,11 @@ class watchdog(object):
 
 class Result(object):
     """Outcome of one explored case."""
-    __slots__ = ('outcome', 'nontrivial', 'violation', 'calls', 'case')
+    __slots__ = ('outcome', 'nontrivial', 'violation', 'calls', 'case', 'window')
 
     def __init__(self, outcome, nontrivial=True, violation=None, calls=1):
         self.case = None                # set when the replayable case differs from the enumerated one
+        self.window = None              # cases run before this one in the same worker (for state-leak replays)
         self.outcome = outcome          # short string: bucket of what was observed
         self.nontrivial = nontrivial    # by the family's stated rule
         self.violation = violation      # None or dict(sig=..., msg=..., expected=..., observed=...)
@@ -127,6 +128,8 @@ class Stats(object):
                 v = dict(res.violation)
                 v['family'] = self.family
                 v['case'] = jsonable(res.case if res.case is not None else case)
+                if res.window:
+                    v['window'] = jsonable(res.window)
                 self.violations.append(v)
 
     def merge(self, other):
@@ -151,6 +154,10 @@ class Stats(object):
                 self.extra.setdefault(k, v)
         self.exhaustive = self.exhaustive and other.exhaustive
         self.cap_note = self.cap_note or other.cap_note
+
+
+# the last cases executed by this worker process (across families), for families that cannot reset shared state
+_PROCESS_WINDOW = collections.deque(maxlen=64)
 
 
 class Family(object):
@@ -200,10 +207,19 @@ class Family(object):
 
     def run_case(self, case):
         if isinstance(case, dict) and '_seq' in case:
-            self.isolate()
+            if self.isolate is not None:
+                self.isolate()
             res = None
             for c in case['_seq']:
-                res = self._guarded(self.from_json(c))
+                f = self
+                if isinstance(c, dict) and '_fam' in c:
+                    # a predecessor from another family of the same property (pool workers run several families)
+                    f = self._siblings[c['_fam']]
+                    c = c['case']
+                    if f is not self and not getattr(f, '_replay_ready', False):
+                        f.setup(self._replay_tier)
+                        f._replay_ready = True
+                res = f._guarded(f.from_json(c))
             res.case = case
             return res
         if self.isolate is not None:
@@ -253,10 +269,17 @@ class Family(object):
                 return res
         if self.isolate is not None:
             self._window.append(case)
+        else:
+            # no way to reset shared state from here: remember what ran before, so that a violation that does not
+            # reproduce on its own can be replayed (in a fresh process) together with its predecessors
+            if res.violation is not None:
+                res.window = list(_PROCESS_WINDOW)
+            _PROCESS_WINDOW.append({'_fam': self.name, 'case': jsonable(case)})
         return res
 
     _window = None
     ISOLATE_EVERY = 256
+    HISTORY_WINDOW = 64
 
     def _run_seq(self, seq):
         self.isolate()
@@ -361,9 +384,14 @@ def replay_once(prop_mod, path):
     with open(path) as f:
         body = json.load(f)
     tier = body.get('tier', 'thorough')
-    for fam in prop_mod.families(tier):
+    fams = prop_mod.families(tier)
+    for fam in fams:
+        fam._siblings = {f.name: f for f in fams}
+        fam._replay_tier = tier
+    for fam in fams:
         if fam.name == body['family']:
             fam.setup(tier)
+            fam._replay_ready = True
             if hasattr(fam, 'replay'):
                 res = fam.replay(body['case'])
             else:
@@ -372,7 +400,7 @@ def replay_once(prop_mod, path):
     raise HarnessError('no family %r in %s' % (body['family'], prop_mod.__name__))
 
 
-def confirm_deterministic(prop, path):
+def confirm_deterministic(prop, path, must=True):
     """Replay in two fresh interpreters with different hash seeds; both must reproduce the same verdict."""
     outs = []
     for hs in ('0', '1'):
@@ -389,6 +417,8 @@ def confirm_deterministic(prop, path):
     if outs[0] != outs[1]:
         raise HarnessError('replay of %s is not deterministic: %r vs %r' % (path, outs[0], outs[1]))
     if not outs[0]['violation']:
+        if not must:
+            return None
         raise HarnessError('violation recorded in %s did not reproduce on replay' % path)
     return outs[0]
 
@@ -449,7 +479,28 @@ def run_property(prop, tier, seed, only=None):
                 continue
             seen_sigs.add(v['sig'])
             path = write_replay(prop, v, tier)
-            confirm_deterministic(prop, path)
+            if confirm_deterministic(prop, path, must=not v.get('window')) is None:
+                # not reproducible alone: state left behind by earlier cases of the same worker?  Replay it in a fresh
+                # process after the shortest suffix of its predecessors that brings the violation back.
+                os.remove(path)
+                found = None
+                win = v['window']
+                for L in (1, 2, 4, 8, 16, 32, 64):
+                    v2 = dict(v)
+                    v2['case'] = {'_seq': win[-L:] + [v['case']]}
+                    v2['sig'] = 'history-dependent:' + v['sig']
+                    v2['msg'] = 'only after the %d preceding case(s) of the same worker: %s' % (min(L, len(win)), v['msg'])
+                    path = write_replay(prop, v2, tier)
+                    if confirm_deterministic(prop, path, must=False) is not None:
+                        found = v2
+                        break
+                    os.remove(path)
+                    if L >= len(win):
+                        break
+                if found is None:
+                    raise HarnessError('violation %s (case %r) did not reproduce on replay, alone or after its predecessors'
+                                       % (v['sig'], v['case']))
+                v = found
             print('VIOLATION property=%s replay=%s' % (prop, path))
             print('  family=%s sig=%s\n  %s\n  case=%s' % (v['family'], v['sig'], v['msg'],
                                                          json.dumps(v['case'], default=repr)[:400]))
